@@ -71,7 +71,8 @@ ANCHORS = [
     ("lib/sqlalchemy/orm/unitofwork.py", "UOWTransaction.was_already_deleted"),
     ("lib/sqlalchemy/orm/persistence.py", "_organize_states_for_save"),
 ]
-OPN = ["query", "get", "refresh", "merge", "expunge", "add", "pkset", "flush", "commit", "rollback", "delete", "extdelete"]
+OPN = ["query", "get", "refresh", "merge", "expunge", "add", "pkset", "flush", "commit", "rollback", "delete", "extdelete",
+       "begin_nested", "nested_commit", "nested_rollback"]
 TOK = {0: None, 1: 7}
 
 
@@ -119,6 +120,29 @@ def gen_cases(rng, tier):
     for k, seq in enumerate(itertools.product(VARIANTS, repeat=n)):
         cases.append({"in": [k & 1, [1], [1, 2], [[0, 0, 0]] + [list(v) for v in seq] + [[0, 0, 0], [1, 1, 0]]],
                       "kind": "frame-%d" % n})
+    sub = [VARIANTS[i] for i in (0, 4, 6, 9, 10, 12, 15, 16, 17, 18)] + [[1, 3, 0]]
+    for k, seq in enumerate(itertools.product(sub if tier != "thorough" else VARIANTS, repeat=2)):
+        # the same frame with objects loaded under an identity token
+        cases.append({"in": [k & 1, [1], [1, 2], [[0, 0, 1]] + [list(v) for v in seq] + [[0, 0, 1], [1, 1, 1]]],
+                      "kind": "frame-token"})
+        # after a flushed primary-key switch 1 -> 3
+        cases.append({"in": [k & 1, [1], [1, 2], [[0, 0, 0], [6, 1, 3], [7, 0, 0]] + [list(v) for v in seq]
+                             + [[1, 3, 0], [1, 1, 0], [0, 0, 0]]], "kind": "pk-switch"})
+    for k, seq in enumerate(itertools.product(VARIANTS, repeat=2)):
+        # a class with a deferred() column (loads leave it in expired_attributes): oracle only
+        cases.append({"in": [1, [1], [1, 2], [[0, 0, 0]] + [list(v) for v in seq] + [[0, 0, 0], [1, 1, 0], [1, 2, 0]]],
+                      "kind": "deferred", "deferred": 1, "model": False})
+    nest = [[12, 0, 0], [13, 0, 0], [14, 0, 0], [6, 1, 3], [6, 1, 4], [7, 0, 0], [9, 0, 0], [8, 0, 0], [0, 0, 0], [4, 1, 0], [5, 1, 0], [10, 1, 0]]
+    for k, seq in enumerate(itertools.product(nest, repeat=3)):
+        # SAVEPOINT histories (the Coq model has no nested transactions): oracle only
+        if [12, 0, 0] not in seq or k % (1 if tier == "thorough" else 3):
+            continue
+        cases.append({"in": [k & 1, [1], [1, 2], [[0, 0, 0], [6, 1, 3], [7, 0, 0]] + [list(v) for v in seq]
+                             + [[9, 0, 0], [0, 0, 0], [1, 1, 0]]], "kind": "savepoint", "model": False})
+    for k, v in enumerate(VARIANTS):
+        # eager_defaults mapping, primary-key switch: oracle only
+        cases.append({"in": [0, [1], [2], [[5, 0, 0], [8, 0, 0], [6, 0, 3], [7, 0, 0], list(v), [1, 3, 0], [0, 0, 0]]],
+                      "kind": "eager", "eager": 1, "model": False})
     for _ in range(20000 if tier == "thorough" else 800):
         cases.append(_random_case(rng))
     return cases
@@ -127,7 +151,7 @@ def gen_cases(rng, tier):
 def nontrivial(c):
     ops = c["in"][-1]
     codes = [(o[0] & 15) for o in ops]
-    return any(x in (0, 1, 3) for x in codes) and any(x in (4, 5, 6, 7, 8, 9, 10) for x in codes)
+    return c.get("model", True) and any(x in (0, 1, 3) for x in codes) and any(x in (4, 5, 6, 7, 8, 9, 10) for x in codes)
 
 
 # ------------------------------------------------------------------------------------------------
@@ -150,6 +174,22 @@ def _setup():
     class A(Base):
         __tablename__ = "a"
         id = Column(Integer, primary_key=True, autoincrement=False)
+
+    from sqlalchemy.orm import deferred
+
+    class AD(Base):  # same identity column plus a deferred() one: loads leave it in expired_attributes
+        __tablename__ = "ad"
+        id = Column(Integer, primary_key=True, autoincrement=False)
+        d = deferred(Column(Integer))
+
+    from sqlalchemy.schema import FetchedValue
+
+    class AE(Base):  # eager_defaults with a server-side onupdate column and no RETURNING: the flush re-loads the row
+        __tablename__ = "ae"
+        id = Column(Integer, primary_key=True, autoincrement=False)
+        v = Column(Integer, server_default=text("0"), server_onupdate=FetchedValue())
+        __mapper_args__ = {"eager_defaults": True}
+        __table_args__ = {"implicit_returning": False}
 
     e = create_engine("sqlite://", connect_args={"autocommit": False})
     Base.metadata.create_all(e)
@@ -183,16 +223,18 @@ def impl(case):
     E = _setup()
     eoc, pks, rows, ops = case["in"]
     nostop = bool(case.get("nostop"))
-    A, e, Session, inspect, text, select, nsql = E["A"], E["e"], E["Session"], E["inspect"], E["text"], E["select"], E["nsql"]
+    e, Session, inspect, text, select, nsql = E["e"], E["Session"], E["inspect"], E["text"], E["select"], E["nsql"]
+    A, tbl = (E["AD"], "ad") if case.get("deferred") else (E["AE"], "ae") if case.get("eager") else (E["A"], "a")
     with e.begin() as c:
-        c.execute(text("delete from a"))
+        c.execute(text("delete from %s" % tbl))
         for r in rows:
-            c.execute(text("insert into a values (%d)" % r))
+            c.execute(text("insert into %s (id) values (%d)" % (tbl, r)))
     s = Session(e, expire_on_commit=bool(eoc))
     objs = [A(id=p) for p in pks]
     raw = e.raw_connection()
     out = []
     mops = []
+    after = []   # rows visible after each operation (for the oracle only)
 
     def idx(o):
         for i, x in enumerate(objs):
@@ -205,7 +247,7 @@ def impl(case):
         for code, a, b in ops:
             o = objs[a % len(objs)]
             cur = raw.cursor()
-            cur.execute("select id from a order by id")
+            cur.execute("select id from %s order by id" % tbl)
             vis = [r[0] for r in cur.fetchall()]
             cur.close()
             fl = []
@@ -262,9 +304,19 @@ def impl(case):
                     s.rollback()
                 elif code == 10:
                     s.delete(o)
+                elif code == 12:
+                    s.begin_nested()
+                elif code == 13:
+                    t = s.get_nested_transaction()
+                    if t is not None:
+                        t.commit()
+                elif code == 14:
+                    t = s.get_nested_transaction()
+                    if t is not None:
+                        t.rollback()
                 elif code == 11:
                     cur = raw.cursor()
-                    cur.execute("delete from a where id = %d" % a)
+                    cur.execute("delete from %s where id = %d" % (tbl, a))
                     cur.close()
             except Exception as ex:
                 err = _exc_code(ex, E)
@@ -278,17 +330,21 @@ def impl(case):
                        | int(st.persistent) << 3 | int(st.session_id == s.hash_key) << 4)
                 sts.append(fl_ + 32 * kk)
             out.append([err + 16 * nosql, sum(w << (9 * j) for j, w in enumerate(sts))] + res)
+            cur = raw.cursor()
+            cur.execute("select id from %s order by id" % tbl)
+            after.append([r[0] for r in cur.fetchall()])
+            cur.close()
             if code == 9 and err != 0:  # a rollback() that raised leaves the transaction half restored: cut
                 out.append([99])
                 break
     finally:
         s.close()
         raw.close()
-    return [[eoc, pks, mops], out]
+    return [[eoc, pks, mops], out, after]
 
 
 def model_pair(case, obs):
-    return obs[0], obs[1]
+    return obs[0], obs[1]   # obs[2] (rows after each operation) is for the oracle only
 
 
 # ------------------------------------------------------------------------------------------------
@@ -318,7 +374,12 @@ def _state_faults(sts):
 
 
 def _violations(obs):
-    mi, out = obs
+    mi, out = obs[0], obs[1]
+    after = obs[2] if len(obs) > 2 else None
+    codes = [(m[0] & 15) for m in mi[2]]
+    # rows can leave the table behind the session's back (external DELETE), or move away under an object
+    # that aliases the row under another identity token
+    rows_tracked = 11 not in codes and not any((m[0] & 15) in (0, 1) and (m[0] >> 7) & 7 for m in mi[2])
     viol = []
     prev = [0] * len(mi[1])
     pfaults = set()
@@ -338,6 +399,12 @@ def _violations(obs):
             for r in res:
                 if (code != 3 or sts[r] >> 5) and not sts[r] & 4:
                     viol.append((k, name, "returned-object-is-not-the-mapped-one", (r,)))
+            if code == 3 and res and sts[res[0]] >> 5 and sts[a % len(prev)] >> 5 \
+                    and sts[res[0]] >> 5 != sts[a % len(prev)] >> 5:
+                viol.append((k, name, "merge-returned-another-identity", (res[0],)))
+            if code == 0 and after is not None and k < len(after) \
+                    and [((sts[r] >> 5) - 1) >> 1 for r in res] != sorted(after[k]):
+                viol.append((k, name, "query-results-do-not-carry-the-identities-of-the-rows", ()))
             if code == 0:
                 keys = [sts[r] >> 5 for r in res]
                 if len(set(keys)) != len(keys):
@@ -353,6 +420,11 @@ def _violations(obs):
                     viol.append((k, name, "get-of-present-unexpired-object-emitted-sql-or-returned-another", (h,)))
             if err == 0 and res and sts[res[0]] >> 5 != want:
                 viol.append((k, name, "get-returned-wrong-identity", ()))
+        if code in (8, 9) and err == 0 and after is not None and k < len(after) and rows_tracked:
+            # at a transaction boundary every mapped object stands for a row of the table
+            for j, w in enumerate(sts):
+                if w & 4 and ((w >> 5) - 1) >> 1 not in after[k]:
+                    viol.append((k, name, "mapped-object-without-row-after-transaction-end", (j,)))
         prev = sts
     return viol
 
@@ -376,6 +448,11 @@ def match_finding(case, what):
         return "C34-get-returns-stale-object"
     if kind == "detached-object-in-identity-map" and 4 in codes and 6 in codes:
         return "C34-rollback-maps-detached-object"
+    if case.get("eager") and kind in ("get-returned-wrong-identity", "mapped-object-without-row-after-transaction-end",
+                                      "query-results-do-not-carry-the-identities-of-the-rows"):
+        return "C34-eager-defaults-key-switch-bypassed"
+    if kind == "mapped-object-without-row-after-transaction-end" and 12 in codes and 13 in codes and codes.count(6) >= 2:
+        return "C34-savepoint-release-loses-original-key"
     if kind in ("two-persistent-objects-one-identity", "persistent-object-not-in-identity-map"):
         if case.get("nostop"):
             return "C34-double-row-switch"
